@@ -275,12 +275,13 @@ type genSheetOut struct {
 
 // sheet generates a default-mode worksheet. With `vertical`, the first column declares a vertical map/list
 // over all columns (the usual shape).
-func (g *sgen) sheet(name string, nfields, nrows int) genSheetOut {
+func (g *sgen) sheet(name string, nfields, nrows int, last ...*snode) genSheetOut {
 	out := genSheetOut{}
 	var nodes []*snode
 	for i := 0; i < nfields; i++ {
 		nodes = append(nodes, g.node(2))
 	}
+	nodes = append(nodes, last...)
 	var cols []hcol
 	switch g.r.Intn(4) {
 	case 0, 1:
